@@ -43,7 +43,8 @@ def run(chk):
             c, p = a.cont()
             want = a.anynan(c[2].fields['params']).negate()
             parts = p.arg if isinstance(p, Pred) and p.kind == 'and' else (p,)
-            if want not in parts:
+            wanted = want.arg if isinstance(want, Pred) and want.kind == 'and' else (want,)     # not(a or b) is stored as (not a) and (not b)
+            if not all(w_ in parts for w_ in wanted):
                 raise Violation("NaN conjunct", f"continuation predicate {p}", f"a conjunct {want}")
             return f"continuation predicate contains {want}"
         chk.run("C18.R2", f"{SOLVE}:_get_break_fun.break_fun", cfg, go_cont, construct="NaN stop condition")
@@ -100,12 +101,14 @@ def run(chk):
     for label, (tree, leaves) in cases.items():
         def go(tree=tree, leaves=leaves):
             r = f(tree)
-            exp = Sym('any', *[Sym('any_isnan', Sym(l)) for l in leaves])
-            got = r
-            if isinstance(got, Pred) and got.kind == 'sym':
-                got = got.arg
-            if not (isinstance(got, Sym) and got.op == 'any' and set(map(repr, got.args)) == set(map(repr, exp.args))
-                    and len(got.args) == len(exp.args)):
+            # "some entry of some leaf is NaN": the disjunction over the leaves (however it is accumulated)
+            exp = Pred.disj([Pred('sym', Sym('any_isnan', Sym(l))) for l in leaves])
+            from ..alg import as_pred
+            try:
+                got = as_pred(r)
+            except Top:
+                got = r
+            if got != exp:
                 raise Violation("NaN test", str(r), str(exp))
             return str(r)
         chk.run("C18.R4", "jinns.utils._utils:_check_nan_in_pytree", {"tree": label}, go, construct="_check_nan_in_pytree")
